@@ -26,7 +26,7 @@ ASSUMPTIONS = ["X and '-' are one class in comparisons", 'unconnected pins read 
 REACH = {'logic_sim.m4': ('logic_sim.py', 109, 184), 'logic_sim.m8': ('logic_sim.py', 184, 260), 'logic.bp_ops': ('logic.py', 283, 388)}
 REACH_TEXT = {'m4-mux': ('logic_sim.py', 'logic.bp4v_not(self.c[t1], self.c[i2])'), 'm8-mux': ('logic_sim.py', 'logic.bp8v_not(self.c[t1], self.c[i2])')}
 
-FEATS = ['unconn_in', 'unconn_out', 'ff_no_d', 'out_read', 'wiring', 'consts', 'floating']
+FEATS = ['unconn_in', 'unconn_out', 'ff_no_d', 'out_read', 'wiring', 'consts', 'floating', 'ff_unread']
 COMPOUND = set(G.FIX_FAMS)
 
 
